@@ -115,3 +115,23 @@ def assign_rhs(tree, spec, fn) -> str:
 
 
 KINDS = {"lambda_kw": lambda_kw, "class_guards": class_guards, "assign_rhs": assign_rhs}
+
+
+def return_rhs(tree, spec, fn) -> str:
+    """kind "return_rhs": the expression of the LAST statement of function fn["py"], which must be a `return`;
+    everything the expression reads must be a declared parameter / attr / subst (earlier statements of the body
+    are NOT translated -- the names they bind are parameters of the definition)."""
+    node = find_function(tree, fn["py"])
+    last = node.body[-1]
+    if not isinstance(last, ast.Return) or last.value is None:
+        raise Unsupported(f"{fn['py']}: last statement is not a return")
+    ctx = Ctx(spec, fn)
+    allowed = {n for n, _ in fn["args"]}
+    for n in ast.walk(last.value):
+        if isinstance(n, ast.Name) and n.id not in allowed and n.id not in ctx.consts and n.id not in ("self", "np") \
+                and not any(n.id in k for k in list(ctx.subst) + list(ctx.calls) + list(ctx.attrs)):
+            raise Unsupported(f"{fn['py']}: return expression reads undeclared name {n.id}")
+    return f"Definition {fn['coq']} {_params(fn)} : {fn['ret']} :=\n  {expr(ctx, last.value)}.\n"
+
+
+KINDS["return_rhs"] = return_rhs
